@@ -212,8 +212,42 @@ def build_mineral(key, A=None, f=None, regime=None):
     )
 
 
+class UpdateTimeout(Exception):
+    """An update did not return within UPDATE_LIMIT_S (a normal update takes milliseconds)."""
+
+
+UPDATE_LIMIT_S = 20.0
+
+
+class time_limit:
+    """Bound the wall time of one implementation call (the solver calls back into Python
+    on every right-hand-side evaluation, so the alarm is delivered promptly).  A model
+    checker must terminate even when a broken implementation makes the ODE arbitrarily
+    stiff; callers treat the timeout like any other exception of the update."""
+
+    def __init__(self, seconds=None):
+        self.seconds = seconds or UPDATE_LIMIT_S
+
+    def __enter__(self):
+        import signal
+
+        def handler(signum, frame):
+            raise UpdateTimeout(f"no result within {self.seconds} s")
+
+        self._old = signal.signal(signal.SIGALRM, handler)
+        signal.setitimer(signal.ITIMER_REAL, self.seconds)
+
+    def __exit__(self, *exc):
+        import signal
+
+        signal.setitimer(signal.ITIMER_REAL, 0)
+        signal.signal(signal.SIGALRM, self._old)
+        return False
+
+
 def update(m, params, F, fl, t0, t1, **kw):
-    return m.update_orientations(params, F, fl.L, (t0, t1, fl.x), **kw)
+    with time_limit():
+        return m.update_orientations(params, F, fl.L, (t0, t1, fl.x), **kw)
 
 
 def warm():
@@ -308,7 +342,7 @@ class Monitor:
 
 
 def update_mon(m, params, F, fl, t0, t1, **kw):
-    with Monitor() as mon:
+    with Monitor() as mon, time_limit():
         F1 = m.update_orientations(params, F, fl.L, (t0, t1, fl.x), **kw)
     return F1, mon
 
